@@ -7,6 +7,7 @@ import os
 import pickle
 import sys
 import threading
+import zlib
 from contextlib import contextmanager
 from importlib.abc import MetaPathFinder
 from importlib.machinery import SourceFileLoader
@@ -88,6 +89,11 @@ class TraceLoader(SourceFileLoader):
                 continue
             tracer_cls = tracer.__class__
             suffix_parts.append(tracer_cls.__name__)
+            # what the rewriter inserts depends on the subscribed events and on whether guards are
+            # generated: bytecode cached for another configuration of a like-named class must not be reused
+            config = sorted(evt.value for evt in tracer.events_with_registered_handlers)
+            config.append(str(tracer.global_guards_enabled))
+            suffix_parts.append(format(zlib.crc32(",".join(config).encode()), "08x"))
             pkg = tracer_cls.__module__.split(".")[0]
             pkg_version = getattr(sys.modules.get(pkg), "__version__", None)
             if isinstance(pkg_version, (int, str)):
